@@ -358,6 +358,7 @@ type State struct {
 	heap    map[string]Term
 	epoch   int             // 0 = entry; >0 = id of the last total havoc
 	gepoch  int             // same for ghost state (modifies ghost.*)
+	dirty   map[string]bool // families assigned on the way here (not merely renamed by a havoc/merge)
 	deferOn map[*ssa.Defer]Term
 	panicking bool          // executing on the exceptional path
 	panicVal  Value         // value being panicked with
@@ -369,6 +370,12 @@ func (st *State) clone() *State {
 		deferOn: make(map[*ssa.Defer]Term, len(st.deferOn)), panicking: st.panicking, panicVal: st.panicVal, recovered: st.recovered}
 	for k, v := range st.heap {
 		n.heap[k] = v
+	}
+	if st.dirty != nil {
+		n.dirty = make(map[string]bool, len(st.dirty))
+		for k := range st.dirty {
+			n.dirty[k] = true
+		}
 	}
 	for k, v := range st.deferOn {
 		n.deferOn[k] = v
@@ -422,8 +429,16 @@ func (vc *VC) havocAllGhost(st *State) {
 	}
 }
 
+func (st *State) markDirty(key string) {
+	if st.dirty == nil {
+		st.dirty = map[string]bool{}
+	}
+	st.dirty[key] = true
+}
+
 func (vc *VC) set(st *State, key, sort string, t Term) {
 	vc.famSort[key] = sort
+	st.markDirty(key)
 	if len(t) > 200 {
 		n := vc.fresh(key, sort)
 		vc.emit("(assert (= " + n + " " + t + "))")
@@ -441,6 +456,7 @@ func (vc *VC) havocFam(st *State, key string) Term {
 	old := vc.get(st, key, sort)
 	n := vc.fresh(key, sort)
 	st.heap[key] = n
+	st.markDirty(key)
 	vc.preserveLocals(st, key, sort, old, n)
 	return n
 }
@@ -454,6 +470,7 @@ func (vc *VC) havocFamRaw(st *State, key string) Term {
 	}
 	n := vc.fresh(key, sort)
 	st.heap[key] = n
+	st.markDirty(key)
 	return n
 }
 
@@ -517,6 +534,7 @@ func (vc *VC) havocAll(st *State) {
 			q := sym(fmt.Sprintf("al!q%d", vc.nfresh))
 			vc.emit("(assert (forall ((" + q + " Int)) (=> (select " + old + " " + q + ") (select " + neu + " " + q + "))))")
 			st.heap[k] = neu
+			st.markDirty(k)
 			continue
 		}
 		if strings.HasPrefix(k, "ghost.") || strings.HasPrefix(k, "S.") || strings.HasPrefix(k, "GI.") {
@@ -556,6 +574,11 @@ func (vc *VC) merge(states []*State) *State {
 		return states[0]
 	}
 	out := &State{heap: map[string]Term{}, deferOn: map[*ssa.Defer]Term{}}
+	for _, s := range states {
+		for k := range s.dirty {
+			out.markDirty(k)
+		}
+	}
 	var rs []Term
 	for _, s := range states {
 		rs = append(rs, s.reach)
